@@ -1121,6 +1121,8 @@ def r_retry(ctx) -> RuleResult:
         for n, a in cfg.ast.items():
             if cfg.kind[n] == "test" and hasattr(a, "test"):
                 pol = is_edge_eq(a.test, var)
+                if pol is None and isinstance(a.test, ast.UnaryOp) and isinstance(a.test.op, ast.Not) and is_edge_eq(a.test.operand, var) is not None:
+                    pol = not is_edge_eq(a.test.operand, var)          # `not (same bonds)`: the test the other way round
                 if pol is None and isinstance(a.test, ast.Compare) and len(a.test.ops) == 1 and isinstance(a.test.ops[0], (ast.Eq, ast.NotEq)):
                     # the general form: one side holds the bonds of the argument, the other mentions the candidate
                     l_, r_ = a.test.left, a.test.comparators[0]
@@ -1142,6 +1144,12 @@ def r_retry(ctx) -> RuleResult:
                     guards[n] = "false" if pol else "true"
         # any other loop that draws the candidate again: whether it ends for every molecule is not something this rule reads
         for w_ in own_walk(fn):
+            if isinstance(w_, ast.While) and isinstance(w_.test, ast.Constant) and w_.test.value is True and not w_.orelse \
+                    and any(cfg.node_of(x_) in guards for x_ in ast.walk(w_) if isinstance(x_, (ast.If, ast.While))) \
+                    and not any(isinstance(x_, ast.Break) for x_ in ast.walk(w_)):
+                # `while True:` left only by a return: the changed-bond-set test sits inside; which returns it lets through is
+                # what the reachability check below decides, and the loop goes round exactly as `while <same bonds>:` does
+                continue
             if isinstance(w_, ast.While) and cfg.node_of(w_) not in guards and \
                     any(isinstance(x_, ast.Name) and isinstance(x_.ctx, ast.Store) and x_.id in cand_vars for x_ in ast.walk(w_)):
                 raise AnalysisError(f"R-RETRY: `while {short(w_.test, 60)}` draws the candidate again under a test that is not the changed-bond-set test; "
